@@ -253,7 +253,8 @@ def _signatures(ctx):
     tasks = []
     for key in imgs:
         for fmt, cls in sorted(reg.items()):
-            for s in ('giant', 'trickle', 'birth-partial', 'two-step'):
+            for s in ('giant', 'trickle', 'birth-partial', 'two-step',
+                      'small-then-giant'):
                 tasks.append((cls, key, s))
     results = _insp.run_matrix(ctx, tasks, imgs)
     rep.count('inspector x image x schedule runs', len(results), floor=2000)
